@@ -54,6 +54,10 @@ static bool repair(Program &p) {
         if (fn == "init") {
             if (!nullobj && s.live) continue;                // init of a live object leaks by design
             int be = (int)op.geti("be", 256); be = be >= 256 ? 256 : be >= 128 ? 128 : 0; op.set("be", be);
+            // allocation-failure injection exists only where the harness installs the allocator monitor hooks (C14, C15)
+            bool failing = (g_prop == 14 || g_prop == 15) && op.geti("failat") == 1;
+            { std::vector<std::pair<std::string, Val>> kv; for (auto &x : op.kv) if (x.first != "failat") kv.push_back(x); op.kv = kv; }
+            if (failing) { op.set("failat", 1); if (!nullobj) { s.live = false; s.keyed = false; s.ever = true; } q.push_back(op); continue; }
             if (!nullobj) { s.live = true; s.keyed = false; s.tweaked = false; s.ever = true; }
         } else if (!usable) continue;
         else if (fn == "cleanup") { if (!nullobj) { s.live = false; s.keyed = false; } }
@@ -112,6 +116,7 @@ static bool repair(Program &p) {
         op.kv = kv;
         std::string fn = op.name.substr(op.name.find('.') + 1);
         if (op.name.rfind("new.", 0) == 0 || e.unspec) continue;
+        if (fn == "init" && op.geti("failat")) continue;     // a failing init is a fault, not an invalid call: it stays in the twin history
         bool inv = e.ret == 0;
         if (e.ret == RET_VOID) {
             long long si = op.geti("s", -1);
